@@ -163,6 +163,9 @@ func New(o Options) *Chain {
 	c.Height = initialHeight
 	c.Time = o.GenesisTime
 	c.newCtx()
+	// InitChain's writes live in the finalize-block branch until the first Commit: run the first block so
+	// that the uncached context sees the genesis state.
+	c.NextBlock(time.Second)
 	return c
 }
 
